@@ -355,25 +355,140 @@ impl Clone for TurbineTree {
 }
 /*@ extract src/disseminator/turbine.rs :: struct Turbine
 @*/
-// the tree every node computes for (slot, index of the shred in the slot), seen from `own_id`: root, parent and children of
-// that validator.  TurbineTree::new seeds a StdRng from exactly (slot, shred) and shuffles the validators by stake; its two
-// position expressions are PROVED above (turbine_positions); the shuffle itself is trusted to be a function of its inputs.
-pub uninterp spec fn spec_tree(validators: Seq<ValidatorInfo>, fanout: usize, own_id: ValidatorIndex, slot: Slot, shred: usize) -> TurbineTree;
-// the members of a tree are validators of the set it was built from (the shuffle permutes the indices 0..n).  TRUSTED.
+// the order in which TurbineTree::new lays the validators out for (slot, index of the shred in the slot): a stake-weighted
+// shuffle (WeightedShuffle) driven by a StdRng seeded from exactly "ALPENGLOWTURBINE" ++ be(slot) ++ be(shred).
+// TRUSTED: it is a function of these inputs only and a permutation of the validator indices.
+pub uninterp spec fn spec_order(validators: Seq<ValidatorInfo>, slot: Slot, shred: usize) -> Seq<ValidatorIndex>;
+pub open spec fn is_perm(order: Seq<ValidatorIndex>, n: int) -> bool {
+    &&& order.len() == n
+    &&& forall|i: int| 0 <= i < n ==> (#[trigger] order[i]).0 < n
+    &&& forall|i: int, j: int| 0 <= i < n && 0 <= j < n && i != j ==> (#[trigger] order[i]) != (#[trigger] order[j])
+    &&& forall|v: ValidatorIndex| (v.0 as int) < n ==> exists|i: int| 0 <= i < n && #[trigger] order[i] == v
+}
+#[verifier::external_body]
+pub proof fn axiom_order_is_perm(validators: Seq<ValidatorInfo>, slot: Slot, shred: usize)
+    ensures is_perm(spec_order(validators, slot, shred), validators.len() as int)
+{}
+pub open spec fn pos_of(order: Seq<ValidatorIndex>, v: ValidatorIndex) -> int {
+    choose|i: int| 0 <= i < order.len() && order[i] == v
+}
+pub open spec fn clip(x: int, n: int) -> int { if x < n { x } else { n } }
+// the view of the tree a validator keeps: the root, its parent and its children by position (children of position q are
+// q*f+1 ..= q*f+f, the parent of p >= 1 is (p-1)/f)
+pub open spec fn spec_tree(validators: Seq<ValidatorInfo>, fanout: usize, own_id: ValidatorIndex, slot: Slot, shred: usize) -> TurbineTree {
+    let order = spec_order(validators, slot, shred);
+    let p = pos_of(order, own_id);
+    TurbineTree {
+        root: order[0],
+        parent: if p == 0 { None } else { Some(order[(p - 1) / (fanout as int)]) },
+        children: choose|c: Vec<ValidatorIndex>| c@ == order.subrange(clip(p * fanout + 1, order.len() as int), clip(p * fanout + 1 + fanout, order.len() as int)),
+    }
+}
+pub open spec fn same_tree(a: TurbineTree, b: TurbineTree) -> bool { a.root == b.root && a.parent == b.parent && a.children@ == b.children@ }
 pub open spec fn tree_members_ok(t: TurbineTree, n: int) -> bool {
     (t.root.0 as int) < n && forall|i: int| 0 <= i < t.children@.len() ==> (#[trigger] t.children@[i]).0 < n
 }
+// StdRng seeded for Turbine, and the R8 wrappers of TurbineTree::new's iterator / byte plumbing (TRUSTED)
+pub uninterp spec fn spec_turbine_seed(slot: Slot, shred: usize) -> Seq<u8>;
 #[verifier::external_body]
-pub proof fn axiom_tree_members(validators: Seq<ValidatorInfo>, fanout: usize, own_id: ValidatorIndex, slot: Slot, shred: usize)
-    ensures tree_members_ok(spec_tree(validators, fanout, own_id, slot, shred), validators.len() as int)
-{}
-impl TurbineTree {
-    #[verifier::external_body]
-    pub fn new(validators: &Vec<ValidatorInfo>, fanout: usize, own_id: ValidatorIndex, slot: Slot, shred: usize) -> (r: Self)
-        ensures
-            r == spec_tree(validators@, fanout, own_id, slot, shred),
-    { unimplemented!() }
+pub fn verif_turbine_seed(slot: Slot, shred: usize) -> (r: Vec<u8>)      // [b"ALPENGLOWTURBINE", &slot.inner().to_be_bytes()[..], &shred.to_be_bytes()[..]].concat()
+    ensures r@ == spec_turbine_seed(slot, shred), r@.len() == 32
+{ unimplemented!() }
+#[verifier::external_body]
+pub fn verif_seed32(seed: Vec<u8>) -> (r: [u8; 32])                       // seed.try_into().expect(..) (length checked by the assert before)
+    requires seed@.len() == 32
+    ensures r@ == seed@
+{ unimplemented!() }
+// WeightedShuffle::new(validators.iter().map(|v| v.stake)).shuffle(&mut rng).map(|i| ValidatorIndex::new(i as u64)).collect()
+#[verifier::external_body]
+pub fn verif_weighted_order(validators: &Vec<ValidatorInfo>, rng: &mut StdRng, Ghost(slot): Ghost<Slot>, Ghost(shred): Ghost<usize>) -> (r: Vec<ValidatorIndex>)
+    requires old(rng).spec_state() == spec_turbine_seed(slot, shred)
+    ensures r@ == spec_order(validators@, slot, shred)
+{ unimplemented!() }
+// validator_indices.iter().position(|v| *v == own_id)
+#[verifier::external_body]
+pub fn verif_position(order: &Vec<ValidatorIndex>, id: ValidatorIndex) -> (r: Option<usize>)
+    ensures
+        r matches Some(i) ==> i < order@.len() && order@[i as int] == id,
+        r is None ==> forall|i: int| 0 <= i < order@.len() ==> order@[i] != id,
+{ unimplemented!() }
+// validator_indices.iter().skip(offset).take(fanout).copied().collect()
+#[verifier::external_body]
+pub fn verif_skip_take(order: &Vec<ValidatorIndex>, offset: usize, count: usize) -> (r: Vec<ValidatorIndex>)
+    ensures r@ == order@.subrange(clip(offset as int, order@.len() as int), clip(offset as int + count as int, order@.len() as int))
+{ unimplemented!() }
+
+// THEOREM [C16.turbine_views_agree]: the views two validators keep of the same tree fit together - v is one of u's
+// children exactly when u is v's parent; and everybody has the same root.  With theorem_turbine_tree (every position other
+// than 0 has exactly one parent position, closer to the root) every validator receives a shred exactly once.
+pub proof fn theorem_turbine_views_agree(validators: Seq<ValidatorInfo>, fanout: usize, u: ValidatorIndex, v: ValidatorIndex, slot: Slot, shred: usize)
+    requires
+        fanout >= 1, (u.0 as int) < validators.len(), (v.0 as int) < validators.len(),
+    ensures
+        spec_tree(validators, fanout, u, slot, shred).root == spec_tree(validators, fanout, v, slot, shred).root,
+        spec_tree(validators, fanout, u, slot, shred).children@.contains(v)
+            <==> spec_tree(validators, fanout, v, slot, shred).parent == Some(u),
+{
+    let order = spec_order(validators, slot, shred);
+    let n = validators.len() as int;
+    let f = fanout as int;
+    axiom_order_is_perm(validators, slot, shred);
+    let pu = pos_of(order, u);
+    let pv = pos_of(order, v);
+    assert(0 <= pu < n && order[pu] == u);
+    assert(0 <= pv < n && order[pv] == v);
+    let tu = spec_tree(validators, fanout, u, slot, shred);
+    let tv = spec_tree(validators, fanout, v, slot, shred);
+    let lo = clip(pu * f + 1, n);
+    let hi = clip(pu * f + 1 + f, n);
+    assert(pu * f >= 0) by (nonlinear_arith) requires pu >= 0, f >= 1;
+    assert(tu.children@ == order.subrange(lo, hi)) by {
+        // the chosen Vec exists: any sequence is the view of some Vec
+        lemma_vec_exists(order.subrange(lo, hi));
+    }
+    if tu.children@.contains(v) {
+        let i = choose|i: int| 0 <= i < tu.children@.len() && tu.children@[i] == v;
+        assert(order[lo + i] == v);
+        assert(lo + i == pv);
+        assert(is_child_of(pv, pu, f));
+        theorem_turbine_tree(pv, f);
+        assert(pu == (pv - 1) / f);
+    }
+    if tv.parent == Some(u) {
+        assert(pv != 0);
+        theorem_turbine_tree(pv, f);
+        let q = (pv - 1) / f;
+        assert(order[q] == u);
+        assert(q == pu);
+        assert(is_child_of(pv, pu, f));
+        assert(lo <= pv < hi);
+        assert(order.subrange(lo, hi)[pv - lo] == v);
+    }
 }
+pub proof fn lemma_tree_members(validators: Seq<ValidatorInfo>, fanout: usize, own_id: ValidatorIndex, slot: Slot, shred: usize)
+    requires fanout >= 1, (own_id.0 as int) < validators.len(),
+    ensures tree_members_ok(spec_tree(validators, fanout, own_id, slot, shred), validators.len() as int)
+{
+    let order = spec_order(validators, slot, shred);
+    let n = validators.len() as int;
+    axiom_order_is_perm(validators, slot, shred);
+    let p = pos_of(order, own_id);
+    assert(0 <= p < n && order[p] == own_id);
+    let lo = clip(p * fanout + 1, n);
+    let hi = clip(p * fanout + 1 + fanout, n);
+    assert(p * fanout >= 0) by (nonlinear_arith) requires p >= 0, fanout >= 1;
+    lemma_vec_exists(order.subrange(lo, hi));
+    let t = spec_tree(validators, fanout, own_id, slot, shred);
+    assert(t.children@ == order.subrange(lo, hi));
+    assert forall|i: int| 0 <= i < t.children@.len() implies (#[trigger] t.children@[i]).0 < n by {
+        assert(t.children@[i] == order[lo + i]);
+    }
+}
+#[verifier::external_body]
+pub proof fn lemma_vec_exists(s: Seq<ValidatorIndex>)
+    ensures exists|c: Vec<ValidatorIndex>| c@ == s
+{}
+
 // the addresses of a list of validators: `children.iter().copied().map(|child| ..validator(child).disseminator_address)` (R8)
 pub open spec fn spec_addrs(vals: Seq<ValidatorInfo>, ids: Seq<ValidatorIndex>) -> Seq<SocketAddr> {
     Seq::new(ids.len(), |i: int| spec_addr(vals[ids[i].0 as int]))
@@ -396,14 +511,19 @@ impl<N: ShredNetwork> Turbine<N> {
     pub open spec fn spec_own_tree(&self, slot: Slot, shred: usize) -> TurbineTree {
         spec_tree(self.epoch_info.epoch.validators@, self.fanout, self.epoch_info.own_id, slot, shred)
     }
+    // what Turbine's constructors must be given: the node is a validator of the epoch, a positive fanout, positions fit usize
+    pub open spec fn config_ok(&self) -> bool {
+        self.epoch_info.epoch.validators@.len() >= 1 && (self.epoch_info.own_id.0 as int) < self.epoch_info.epoch.validators@.len()
+            && self.fanout >= 1 && self.epoch_info.epoch.validators@.len() * self.fanout + self.fanout < usize::MAX
+    }
     // the tree cache is pure memoisation
     pub open spec fn tree_cache_ok(&self) -> bool {
-        forall|k: (Slot, usize)| #[trigger] self.tree_cache.content().contains_key(k) ==> self.tree_cache.content()[k] == self.spec_own_tree(k.0, k.1)
+        forall|k: (Slot, usize)| #[trigger] self.tree_cache.content().contains_key(k) ==> same_tree(self.tree_cache.content()[k], self.spec_own_tree(k.0, k.1))
     }
     // `self.tree_cache.insert(key, tree.clone())` (R8): only the computed tree may be cached
     #[verifier::external_body]
     pub fn verif_tree_cache_insert(&self, key: (Slot, usize), tree: TurbineTree)
-        requires tree == self.spec_own_tree(key.0, key.1),
+        requires same_tree(tree, self.spec_own_tree(key.0, key.1)),
     { unimplemented!() }
     pub open spec fn spec_shred_key(shred: Shred) -> usize {
         (shred.spec_payload().header.slice_index.0 * TOTAL_SHREDS + shred.spec_payload().shred_index.0) as usize
@@ -411,6 +531,52 @@ impl<N: ShredNetwork> Turbine<N> {
 
 }
 impl TurbineTree {
+/*@ extract src/disseminator/turbine.rs :: impl TurbineTree/fn new
+props C16
+ret r
+sig `validators: &[ValidatorInfo]` => `validators: &Vec<ValidatorInfo>`
+rewrite[R8] `let seed = [ b"ALPENGLOWTURBINE", &slot.inner().to_be_bytes()[..], &shred.to_be_bytes()[..], ] .concat();` => `let seed = verif_turbine_seed(slot, shred);`
+rewrite[R8] `seed.try_into() .expect("turbine seed should be exactly 32 bytes")` => `verif_seed32(seed)`
+rewrite[R8] `let mut weighted_shuffle = WeightedShuffle::new(validators.iter().map(|v| v.stake));` => ``
+rewrite[R8] `let validator_indices: Vec<_> = weighted_shuffle .shuffle(&mut rng) .map(|i| ValidatorIndex::new(i as u64)) .collect();` => `let validator_indices: Vec<ValidatorIndex> = verif_weighted_order(validators, &mut rng, Ghost(slot), Ghost(shred));`
+rewrite[R8] `validator_indices .iter() .position(|v| *v == own_id)` => `verif_position(&validator_indices, own_id)`
+rewrite[R8] `validator_indices .iter() .skip(offset) .take(fanout) .copied() .collect()` => `verif_skip_take(&validator_indices, offset, fanout)`
+requires
+        validators@.len() >= 1,
+        // the node itself is a validator of the epoch (the `expect` on its position)
+        (own_id.0 as int) < validators@.len(),
+        // a tree needs a positive fanout (`(own_pos - 1) / fanout`), and positions are computed in usize
+        fanout >= 1,
+        validators@.len() * fanout + fanout < usize::MAX,
+ensures
+        // [C16.tree_is_a_function_of_slot_and_shred_position_only] the kept view is exactly the specified one
+        r.root == spec_tree(validators@, fanout, own_id, slot, shred).root,
+        r.parent == spec_tree(validators@, fanout, own_id, slot, shred).parent,
+        r.children@ == spec_tree(validators@, fanout, own_id, slot, shred).children@,
+        tree_members_ok(r, validators@.len() as int),
+before `let root = validator_indices[0];`
+        proof {
+            axiom_order_is_perm(validators@, slot, shred);
+        }
+before `let parent_pos = match own_pos {`
+        proof {
+            let order = validator_indices@;
+            assert(own_pos == pos_of(order, own_id)) by {
+                let p = pos_of(order, own_id);
+                assert(0 <= p < order.len() && order[p] == own_id);
+                if p != own_pos { assert(order[p] != order[own_pos as int]); }
+            }
+            assert(own_pos * fanout + 1 + fanout <= validators@.len() * fanout + fanout) by (nonlinear_arith)
+                requires own_pos < validators@.len(), fanout >= 1;
+            if own_pos > 0 { theorem_turbine_tree(own_pos as int, fanout as int); }
+            lemma_vec_exists(order.subrange(clip(own_pos * fanout + 1, order.len() as int), clip(own_pos * fanout + 1 + fanout, order.len() as int)));
+        }
+closure 0
+        params p: usize
+        ret o: ValidatorIndex
+        requires p < validator_indices@.len()
+        ensures o == validator_indices@[p as int]
+@*/
 /*@ extract src/disseminator/turbine.rs :: impl TurbineTree/fn get_root
 ret r
 ensures
@@ -430,13 +596,13 @@ rewrite[R8] `self.tree_cache.insert((slot, shred), tree.clone());` => `self.veri
 rewrite[R8] `self.epoch_info.epoch_info().validators()` => `&self.epoch_info.epoch.validators`
 rewrite[R8] `self.epoch_info.own_id()` => `self.epoch_info.own_id`
 requires
-        self.tree_cache_ok(),
+        self.tree_cache_ok() && self.config_ok(),
 ensures
         // [C16.tree_is_a_function_of_slot_and_shred_position_only] cache hit or not
-        r == self.spec_own_tree(slot, shred),
+        same_tree(r, self.spec_own_tree(slot, shred)),
         tree_members_ok(r, self.epoch_info.epoch.validators@.len() as int),
 before `if let Some(tree) = self.tree_cache.get(&(slot, shred))`
-        proof { axiom_tree_members(self.epoch_info.epoch.validators@, self.fanout, self.epoch_info.own_id, slot, shred); }
+        proof { lemma_tree_members(self.epoch_info.epoch.validators@, self.fanout, self.epoch_info.own_id, slot, shred); }
 @*/
 
 /*@ extract src/disseminator/turbine.rs :: impl Turbine<N>/fn send_shred_to_root
@@ -448,7 +614,7 @@ sig `std::io::Result<()>` => `Result<(), IoError>`
 rewrite[R8] `self .epoch_info .epoch_info() .validator(root) .disseminator_address` => `verif_addr(self.epoch_info.epoch.validator(root))`
 rewrite[R8] `self.network.send(shred, addr)` => `self.network.verif_send(shred, addr)`
 requires
-        old(self).tree_cache_ok(),
+        old(self).tree_cache_ok() && old(self).config_ok(),
         shred.spec_payload().header.slice_index.0 < 1024 && shred.spec_payload().shred_index.0 < TOTAL_SHREDS,
 ensures
         // [C16.leader_and_forwarders_use_the_same_tree] the leader sends the shred to the root of the tree for
@@ -467,7 +633,7 @@ sig `std::io::Result<()>` => `Result<(), IoError>`
 rewrite[R8] `tree.get_children().iter().copied().map(|child| { self.epoch_info .epoch_info() .validator(child) .disseminator_address })` => `verif_addrs_of(&self.epoch_info.epoch, &tree.children)`
 rewrite[R8] `self.network.send_to_many(shred, addrs)` => `self.network.verif_send_to_many(shred, addrs)`
 requires
-        old(self).tree_cache_ok(),
+        old(self).tree_cache_ok() && old(self).config_ok(),
         shred.spec_payload().header.slice_index.0 < 1024 && shred.spec_payload().shred_index.0 < TOTAL_SHREDS,
 ensures
         // [C16.leader_and_forwarders_use_the_same_tree] ... and every receiver forwards it to its children in the tree for the
